@@ -43,6 +43,21 @@ def _canary_alone(role, k):
     return st['cs'].out, (us.out if us is not None else None), st['cs'].closed
 
 
+CLOSER_REQ = b'PUT /closer-gets-an-error-reply HTTP/1.1\r\n\r\n' * 1
+
+
+def _closer_alone(role, k):
+    env = envkit.new_env()
+    xk = envkit.Executor(scen.FLAGS[role], env)
+    cs = xk.accept('closer')
+    cs.inq.append(CLOSER_REQ)
+    for i in range(k):
+        e = xk.step()
+        if e is not None:
+            raise RuntimeError('harness-error: closer alone fails: %r' % (e,))
+    return cs.out, cs.closed
+
+
 def _err(kind):
     if kind == 1:
         return b''
@@ -96,12 +111,21 @@ def isolate(b0: int, b1: int, b2: int, cab: int, uab: int, when: int) -> bool:
         if nm in CFG and val != CFG[nm]:
             return skip()
     cab, uab, when = CFG.get('cab', cab), CFG.get('uab', uab), CFG.get('when', when)
+    closer_on = CFG.get('closer')
+    adv_at = CFG.get('adv_at', 0)
+    envkit.TASK_ORDER[0] = CFG.get('task_order', 0)
     with concrete():
         alone = _canary_alone(role, k)
+        closer_alone = _closer_alone(role, k) if closer_on else None
         env = envkit.new_env()
         xk = envkit.Executor(scen.FLAGS[role], env)
         cst = {'cs': xk.accept('canary')}
+        closer = xk.accept('closer', ('10.7.7.7', 7)) if closer_on == 'before' else None
         adv = xk.accept('adversary', ('10.6.6.6', 666))
+        if closer_on == 'after':
+            closer = xk.accept('closer', ('10.7.7.7', 7))
+        if closer is not None:
+            closer.inq.append(CLOSER_REQ)
 
         def factory(addr):
             return env.sock('up:' + addr[0])
@@ -122,11 +146,14 @@ def isolate(b0: int, b1: int, b2: int, cab: int, uab: int, when: int) -> bool:
     # multi-byte UTF-8 / delimiter contexts are present without multiplying the paths
     b1 = CFG.get('b1', 0x61)
     b2 = CFG.get('b2', 0x62)
-    adv.inq.append(adversary_bytes(tpl, [b0, b1, b2]))
+    if adv_at == 0:
+        adv.inq.append(adversary_bytes(tpl, [b0, b1, b2]))
     second = CFG.get('second')
     ex = xk.ex
     for i in range(k):
         _canary_step(cst, env, i)
+        if adv_at == i and i > 0:
+            adv.inq.append(adversary_bytes(tpl, [b0, b1, b2]))
         aus = None
         for addr, s in env.connects:
             if addr[0] != 'canary.example' and not isinstance(s, BaseException):
@@ -160,6 +187,12 @@ def isolate(b0: int, b1: int, b2: int, cab: int, uab: int, when: int) -> bool:
         return fail('canary connection did not proceed as it does alone', got=repr(got)[:300], alone=repr(alone)[:300])
     if not ccs.closed and ccs.fd not in ex.works:
         return fail('canary dropped from the executor')
+    if closer is not None:
+        if (closer.out, closer.closed) != closer_alone:
+            return fail('a connection that ends in the same iteration as the failing one was not finished as it is alone',
+                        got=repr((closer.out[:40], closer.closed)), alone=repr((closer_alone[0][:40], closer_alone[1])))
+        if closer.fd in ex.works or closer.fd in ex.selector.map:
+            return fail('a connection that asked to be torn down is still known to the executor')
     # a connection accepted afterwards is still served
     late = xk.accept('late')
     late.inq.append(b'GET http://late.example/ HTTP/1.1\r\n\r\n' if role in ('forward', 'all') else b'GET /hello HTTP/1.1\r\nHost: x\r\n\r\n')
@@ -214,6 +247,13 @@ def obligations(tier):
             add('rev.%s.uab%d' % (tpl, uab), role='all', tpl=tpl, cab=0, uab=uab, when=1)
         add('rev.%s.second' % tpl, role='all', tpl=tpl, cab=0, uab=0, when=2, second=True, answer=True)
         add('rev.%s.second.noanswer' % tpl, role='all', tpl=tpl, cab=0, uab=0, when=2, second=True)
+    # a connection that finishes (teardown) in the very iteration in which the adversary's handler raises, for both orders in
+    # which the event loop may look at the finished tasks
+    for role, tpl in (('forward', 'fwd_host'), ('web', 'web_path'), ('all', 'rev_api'), ('forward', 'connect_host')):
+        for where in ('before', 'after'):
+            for order in (0, 1):
+                add('sametick.%s.%s.closer_%s.order%d' % (role, tpl, where, order), role=role, tpl=tpl, cab=0, uab=0, when=2, closer=where,
+                    adv_at=1, task_order=order, b1=0x80)
     if tier == 'thorough':
         for o in list(obs):
             c = dict(o['cfg'])
